@@ -5,13 +5,13 @@ From Flocq Require Import Core.Raux.
 From Inferno Require Import Base.Num Base.NumR C19.Encoders C19.EncodersLists C19.EncodersPoisson C19.EncodersProofs.
 Import ListNotations.
 Open Scope R_scope.
-Theorem exp_online_zero_silent : forall (guard : nat -> bool) (steps : nat) (dt : T RN) (refrac : option (T RN))
-    (comp : bool) (inps draws0 : list (T RN)) (draws : list (list (T RN)))
-    (outs : list (list bool)) (raised : bool) (j : nat),
-  exp_online_gen RN guard steps dt refrac comp inps draws0 draws = (outs, raised) ->
+Theorem exp_online_zero_silent : forall (steps : nat) (dt : T RN) (refrac : option (T RN)) (comp : bool)
+    (inps draws0 : list (T RN)) (draws : list (list (T RN))) (j : nat),
   length draws0 = length inps ->
   Forall nonneg draws0 ->
   Forall (Forall nonneg) draws ->
-  nth j inps 0 = 0 -> forall t : nat, nth j (nth t outs []) false = false.
+  nth j inps 0 = 0 ->
+  forall t : nat,
+  nth j (nth t (exp_online RN steps dt refrac comp inps draws0 draws) []) false = false.
 Proof. exact (@Inferno.C19.EncodersProofs.exp_online_zero_silent). Qed.
 Print Assumptions exp_online_zero_silent.
